@@ -108,6 +108,9 @@ def generate(run_seed, tier):
         ops.append({"obj": rng.randrange(nobj), "op": op, "q": rng.randrange(64), "default": rng.random() < 0.15})
         if ops and rng.random() < 0.2:
             ops.append(dict(rng.choice(ops)))  # repetition
+        if op in REPLAYING and rng.random() < 0.3:
+            # order-sensitive pairs: a replaying query immediately followed by one for the first / the last round
+            ops.append({"obj": ops[-1]["obj"], "op": rng.choice(REPLAYING), "q": 0, "default": False, "fixed": rng.choice(["first", "first", "last"])})
     pol = rng.choice(common.gen_policies(rng, run_seed))
     return {"profile": jp, "objs": objs, "ops": ops[:14], "policies": [pol]}
 
@@ -258,7 +261,11 @@ def execute(case, trace=False):
             max_rounds = max(max_rounds, R)
             # 3 in 4 requests are in range (non-negative or negative form); 1 in 4 is an out-of-range fault
             q = op["q"]
-            if q % 4 != 3:
+            if op.get("fixed") == "first":
+                r = 0
+            elif op.get("fixed") == "last":
+                r = M.n - 1
+            elif q % 4 != 3:
                 r = -M.n + ((q // 4) % (2 * M.n))
             else:
                 r = [-M.n - 1, -M.n - 2, M.n, M.n + 1][(q // 4) % 4]
